@@ -163,7 +163,7 @@ PROPS.update({
 
 PROPS.update({
     "C41": {"engine": "quic", "level": "exploration", "quick": 8000, "thorough": 400000},
-    "C36": {"engine": "gw", "level": "fault_enumeration", "quick": 297, "thorough": 297},
+    "C36": {"engine": "gw", "level": "fault_enumeration", "quick": 378, "thorough": 1134},
 })
 
 RULES = {
